@@ -32,28 +32,27 @@ KANI_ASSUMES = ["A6", "A9"]
 
 # Functions a property depends on that are NOT (yet) under a discharged contract: reported in every evidence file
 # so the gap is visible; they are never counted as proved.
-V5_DECODERS = "v5 body decoders (Connect/Connack/Publish/Puback/Pubrec/Pubrel/Pubcomp/Subscribe/Suback/Unsubscribe/Unsuback/Disconnect/Auth ::decode_async, LastWill::decode_async), the 14 XProperties::decode_async loops and PropertyValue::decode_*, v5 Packet::{decode_async, decode}, v5 Header::{decode, decode_async}, v5 PollHeader impl (block_decode, build_empty_packet)"
-V5_ENCODERS = "v5 body encoders not yet under contract: Connect, LastWill, Connack, Disconnect, Auth, Publish, Subscribe, Suback, Unsubscribe, Unsuback ::{encode, encode_len}, SubscriptionOptions::to_u8 (Kani only), v5 Packet::{encode, encode_len, encode_async}"
-LEMMAS = "spec-level composition lemmas (round trip p_X(enc_X(x)+rest)==Ok(x), prefix=>Incomplete, framing of concatenations, |enc| <= consumed) are proved for the variable byte integer only; for packet bodies the property is decided per function (encoder == enc_X, decoder == p_X) and the composition is by inspection of the two specs"
+V5_REST = "v5: ConnackProperties::encode (16 optional properties) exceeds the usable solver resource cap and is carried as an assumed contract (its encode_len and decoder are proved); PollHeader::new_with forwarders and Packet::get_type are not under contract"
+LEMMAS = "spec-level composition lemmas (round trip p_X(enc_X(x)+rest)==Ok(x), prefix=>Incomplete, framing of concatenations, |enc| <= consumed) are proved for the variable byte integer only; for packet bodies the property is decided per function (encoder == enc_X, decoder == p_X, decoded value valid() for the encoder) and the composition is by inspection of the two specs"
 GAPS = {
-    "C01": [V5_DECODERS, V5_ENCODERS, LEMMAS, "poll body phase is bounded (body length <= 4)"],
-    "C02": [V5_ENCODERS, "F5-style oversize property sections: encode_len's precondition valid() excludes sections >= 2^28 bytes (the crate panics there instead of returning an error; not exercised by any obligation)"],
-    "C03": [V5_DECODERS, "TopicFilter::is_invalid loop (assumed contract, bounded Kani stand-in)", "poll body phase is bounded (body length <= 4); memory-level initialisation of the MaybeUninit buffer is not machine-checked (A8)"],
-    "C04": [V5_DECODERS, "TopicFilter::is_invalid loop (assumed contract, bounded Kani stand-in)", "composition poll-step o block_decode o new_with is on paper (DESIGN 2.3)"],
+    "C01": [V5_REST, LEMMAS, "poll body phase is bounded (body length <= 4)"],
+    "C02": [V5_REST, "F5-style oversize property sections: encode_len's precondition valid() excludes sections >= 2^28 bytes (the crate panics there instead of returning an error; not exercised by any obligation)"],
+    "C03": ["TopicFilter::is_invalid loop (assumed contract, bounded Kani stand-in)", "poll body phase is bounded (body length <= 4); memory-level initialisation of the MaybeUninit buffer is not machine-checked (A8)"],
+    "C04": ["TopicFilter::is_invalid loop (assumed contract, bounded Kani stand-in)", "composition poll-step o block_decode o new_with is on paper (DESIGN 2.3)"],
     "C05": ["two-reads-in-one-poll (merge) harnesses do not finish under CBMC within the time limit (thorough tier, reported undecided when they time out); schedule independence rests on the single-step contracts plus the structural argument of DESIGN 2.3", "body phase bounded (body length <= 4)"],
-    "C06": [V5_DECODERS, "agreement is by both dispatchers refining the same spec p3_body (v3); v5 not yet"],
-    "C07": [V5_DECODERS, LEMMAS],
-    "C08": [V5_DECODERS, LEMMAS],
-    "C09": [V5_ENCODERS, "partial writes / Pending of an async sink live in tokio's WriteAll (A1, A3)"],
-    "C10": [V5_ENCODERS],
-    "C11": [V5_DECODERS, V5_ENCODERS, LEMMAS],
-    "C12": [V5_DECODERS, "TopicFilter::is_invalid loop (assumed contract, bounded Kani stand-in)", "v5 payload_is_utf8 checks (Publish, LastWill)"],
-    "C13": ["v5 Connect::{decode_async, decode_with_protocol} (gate and resume) not yet under contract; Protocol::new is a bounded Kani table (names <= 7 bytes)"],
-    "C14": [V5_DECODERS, "composite encoders: only append-only + error-comes-from-the-sink is proved per impl; 'only a prefix of enc()' is proved for the leaf writers and Packet::encode_async, and follows for composites by sequential composition (not machine-checked)"],
+    "C06": ["agreement is by the dispatchers refining the same spec (p3_packet/p3_body, p5_packet/p5_body); the final step from poll-step contract (Kani, mock header) to the real Header impls is on paper"],
+    "C07": [LEMMAS],
+    "C08": [LEMMAS],
+    "C09": [V5_REST, "partial writes / Pending of an async sink live in tokio's WriteAll (A1, A3)"],
+    "C10": [V5_REST],
+    "C11": [V5_REST, LEMMAS],
+    "C12": ["TopicFilter::is_invalid loop (assumed contract, bounded Kani stand-in)"],
+    "C13": ["Protocol::new is a bounded Kani table (names <= 7 bytes), assumed by the Verus callers"],
+    "C14": ["composite encoders: only error-comes-from-the-sink is proved per impl; 'only a prefix of enc()' is proved for the leaf writers and Packet::encode_async, and follows for composites by sequential composition (not machine-checked)"],
     "C15": [],
-    "C16": ["TopicFilter::is_invalid: the validator loop itself is not proved unboundedly; its contract (decision == filter_ok, cached separator) is checked by bounded Kani harnesses (8 prefix shapes + <= 3 symbolic characters over an 8-symbol alphabet) and assumed by the Verus callers", "v5 Subscribe/Unsubscribe decode call sites"],
+    "C16": ["TopicFilter::is_invalid: the validator loop itself is not proved unboundedly; its contract (decision == filter_ok, cached separator) is checked by bounded Kani harnesses (8 prefix shapes + <= 3 symbolic characters over an 8-symbol alphabet) and assumed by the Verus callers"],
     "C17": ["shared_group_name/shared_filter/shared_info/is_shared and Eq/Ord/Hash of TopicFilter are not under contract (str range indexing); only Deref, try_from and the cached separator (bounded Kani) are"],
-    "C18": ["TopicName::is_shared/is_sys (str::starts_with) not under contract; v5 call sites (Publish, will, response topic)"],
+    "C18": ["TopicName::is_shared/is_sys (str::starts_with) not under contract"],
     "C19": [],
-    "C20": [V5_DECODERS],
+    "C20": [],
 }
